@@ -35,10 +35,9 @@ ASSUMPTIONS = ['callbacks neither raise nor call back into the machine (C04/C05)
                'implementation-vs-implementation comparison only (extra_checks), not by the Coq model',
                'State objects passed as references are the registered objects (identity is not modelled)',
                'embedded-machine check: event names include to_-prefixed names that are no automatic transitions, the '
-               'embedded machine has auto_transitions on or off and one or two levels; the combination auto_transitions on '
-               '+ nested states in the embedded machine is excluded (its to_<parent>_<child> events survive embedding, '
-               'reported separately), as are user transitions on an event named like an automatic one while '
-               'auto_transitions is on',
+               'embedded machine has auto_transitions on or off and one or two levels (also both: D33, fixed); user '
+               'transitions on an event named like an automatic one while auto_transitions is on are not generated '
+               '(the whole event is skipped on embedding)',
                'no known finding is attributed by this check: D27/D28 (Enum/State forms in add_ordered_transitions '
                'states and in Machine.remove_transition filters) are fixed in /repo and proved as laws']
 THEOREMS = ['C13_callback_repr', 'C13_callback_repr_state', 'C13_callback_repr_machine', 'C13_state_repr',
@@ -1204,7 +1203,7 @@ def _nested_pair(rng):
     return dict(paths=joined, transitions=trans, initial=init, history=history), outs
 
 
-def _remap_pair(rng, allow_auto_nested=False):
+def _remap_desc(rng, allow_auto_nested=True):
     """a machine embedded as children with remap vs the explicit nested definition whose remapped
     states leave through the remap target.  Event names come from a pool that contains 'to_'-prefixed
     names that are no automatic transitions ('to_next', 'to_x1', and - when the embedded machine has
@@ -1246,6 +1245,23 @@ def _remap_pair(rng, allow_auto_nested=False):
     cond_val = {i: rng.random() < 0.75 for i in range(nt)}
     unless_val = {i: rng.random() < 0.2 for i in range(nt)}
     slots = {i: rng.sample(['conditions', 'unless', 'before', 'after', 'prepare'], rng.randint(0, 5)) for i in range(nt)}
+    return dict(sub_states=sub_states, remap=remap, sub_auto=sub_auto, parent_auto=parent_auto, deep=deep,
+                sub_transitions=sub_trans, deep_transitions=deep_trans, top_transitions=top_trans,
+                history=history, cond=cond_val, unless=unless_val, slots=slots)
+
+
+def _remap_run(desc):
+    """build the embedded and the explicit machine of a description (also used for corpus/C13/extra/*.json)"""
+    from transitions.extensions.nesting import HierarchicalMachine as HM
+    sub_states, remap = desc['sub_states'], desc['remap']
+    sub_auto, parent_auto, deep = desc['sub_auto'], desc['parent_auto'], desc['deep']
+    sub_trans, deep_trans, top_trans = desc['sub_transitions'], desc['deep_transitions'], desc['top_transitions']
+    history = desc['history']
+    cond_val = {int(k): v for k, v in desc['cond'].items()}
+    unless_val = {int(k): v for k, v in desc['unless'].items()}
+    slots = {int(k): v for k, v in desc['slots'].items()}
+    remapped = [s for s in sub_states if s in remap]
+    kept = [s for s in sub_states if s not in remap]
 
     def top(nm):
         return nm.split('_')[0]
@@ -1308,9 +1324,26 @@ def _remap_pair(rng, allow_auto_nested=False):
         m.initial = 'idle'
         m.add_model(model)
         outs.append(_hsm_observe(m, model, log, history, None))
-    return dict(sub_states=sub_states, remap=remap, sub_auto=sub_auto, parent_auto=parent_auto, deep=deep,
-                sub_transitions=sub_trans, deep_transitions=deep_trans, top_transitions=top_trans,
-                history=history, cond=cond_val, unless=unless_val, slots=slots), outs
+    return outs
+
+
+def _remap_pair(rng):
+    desc = _remap_desc(rng)
+    return desc, _remap_run(desc)
+
+
+def _extra_corpus():
+    """hand-picked descriptions of the embedded-machine check: corpus/C13/extra/*.json (run first)"""
+    import json
+    import os
+    from framework import VERIF
+    d = os.path.join(VERIF, 'corpus', 'C13', 'extra')
+    out = []
+    if os.path.isdir(d):
+        for f in sorted(os.listdir(d)):
+            if f.endswith('.json'):
+                out.append((f, json.load(open(os.path.join(d, f)))))
+    return out
 
 
 def extra_checks(tier, seed):
@@ -1321,10 +1354,15 @@ def extra_checks(tier, seed):
     for name, fn in (('hsm_nested_dict_vs_joined_names', _nested_pair), ('hsm_embedded_machine_remap', _remap_pair)):
         bad = None
         executed = 0
-        for i in range(n):
+        fixed = _extra_corpus() if fn is _remap_pair else []
+        for i in range(-len(fixed), n):
             rng = random.Random('C13-x-%s-%d-%d' % (name, seed, i))
             try:
-                desc, outs = fn(rng)
+                if i < 0:
+                    desc = fixed[i + len(fixed)][1]
+                    outs = _remap_run(desc)
+                else:
+                    desc, outs = fn(rng)
             except Exception as e:  # noqa
                 import traceback
                 bad = dict(kind='correspondence', correspondence=name, description='builder raised',
@@ -1336,7 +1374,7 @@ def extra_checks(tier, seed):
                 bad = dict(kind='counterexample', correspondence=name, description=desc, observations=outs,
                            failing_clause='equivalent hierarchical definitions differ in %s' % sorted(set(diff)), index=i)
                 break
-        res.append((name, bad is None, dict(instances=n, executed_transitions=executed,
+        res.append((name, bad is None, dict(instances=n, corpus=len(fixed), executed_transitions=executed,
                                             level='implementation-vs-implementation (partial: not modelled in Coq)'),
                     bad or {}))
     return res
